@@ -509,6 +509,14 @@ class Extracted:
         self.log(rule, 'inserted %r after %r (x%d)' % (norm_ws(text), anchor, k))
         return self
 
+    def insert_before(self, rule, anchor, text, count=None):
+        k = self.text.count(anchor)
+        if k == 0 or (count is not None and k != count):
+            raise AnchorLost('%s [%s]: insertion anchor %r found %d times' % (self.file, self.key, anchor, k))
+        self.text = self.text.replace(anchor, text + anchor)
+        self.log(rule, 'inserted %r before %r (x%d)' % (norm_ws(text), anchor, k))
+        return self
+
     # X6 ------------------------------------------------------------------------------------------
     def fn_parts(self):
         """(signature, body) of a fn item; body includes the braces"""
